@@ -439,6 +439,7 @@ def run_check(prop, tier, seed):
     impl_skips = 0
     disagreements = []
     oracle_fails = []
+    gen_failed = None
     alt_failures = []    # failures seen only under the alternative environment (other thread-pool size)
     stats = {}
     samples = []
@@ -474,9 +475,28 @@ def run_check(prop, tier, seed):
         if smt_report:
             notes.append("translated functions differing from the reference translation (z3 verdict): " + json.dumps(smt_report))
         env = dict(cfg.get("env", {}))
-        rcg, gout, gerr = sh([TFH, "gen", prop, "--seed", str(seed), "--tier", search_tier], env=env, timeout=3600)
+        # the op generator is part of the harness binary and calls a few functions of the crate (to place boundary values);
+        # against a changed implementation it may crash or hang - then the ops of the last successful generation for this
+        # property and seed are used instead (they depend on the seed only), and the failure is reported
+        good_path = os.path.join(WORK, f"{prop}.{search_tier}.seed{seed}.ops.good")
+        try:
+            rcg, gout, gerr = sh([TFH, "gen", prop, "--seed", str(seed), "--tier", search_tier], env=env,
+                                 timeout=int(os.environ.get("VERIF_GEN_TIMEOUT", "1500" if search_tier == "thorough" else "600")))
+        except subprocess.TimeoutExpired:
+            rcg, gout, gerr = -9, "", "the op generator did not terminate within its time limit"
         if rcg != 0:
-            notes.append("generator failed: " + gerr[-500:])
+            gen_failed = "the op generator of the harness crashed or hung against this implementation: " + gerr[-300:]
+            notes.append(gen_failed)
+            gout = ""
+            for cand in (good_path, os.path.join(WORK, f"{prop}.quick.seed{seed}.ops.good"), os.path.join(WORK, f"{prop}.thorough.seed{seed}.ops.good")):
+                if os.path.exists(cand):
+                    with open(cand) as f:
+                        gout = f.read()
+                    notes.append("using the ops of the last successful generation: " + os.path.basename(cand))
+                    break
+        else:
+            with open(good_path, "w") as f:
+                f.write(gout)
         lines += [l for l in gout.split("\n") if l.strip()]
         with open(ops_path, "w") as f:
             f.write("\n".join(lines) + "\n")
@@ -625,7 +645,7 @@ def run_check(prop, tier, seed):
         path = write_replay(prop, seed, payload)
         out_lines.append(f"VIOLATION property={prop} replay={path}")
         exit_code = 1
-    elif broken or failed_translations or not harness_ok or not driver_ok:
+    elif broken or failed_translations or not harness_ok or not driver_ok or gen_failed:
         what = []
         if broken:
             what.append("theorems/lemmas that no longer check: " + ", ".join(sorted({str(b['decl']) for b in broken})))
@@ -635,6 +655,8 @@ def run_check(prop, tier, seed):
             what.append("the correspondence harness no longer builds against /repo")
         if not driver_ok:
             what.append("the model driver no longer builds")
+        if gen_failed:
+            what.append(gen_failed)
         payload = {"property": prop, "kind": "no-failing-input-found", "seed": seed, "tier": tier,
                    "broken_obligations": broken, "untranslatable": failed_translations,
                    "harness_build_ok": harness_ok, "driver_build_ok": driver_ok,
